@@ -11,7 +11,7 @@ from lightworks.sdk.circuit.components import (BeamSplitter, Loss, ModeSwaps,
                                                PhaseShifter)
 
 from ..engine import h_seed
-from ..ops import val
+from ..ops import plain, val
 from ..refmodel import Ref, fock_states, real_amp
 from . import Monitor
 
@@ -85,7 +85,7 @@ class WiringMonitor(Monitor):
             return []
         if k == "herald":
             if ok:
-                r.herald(op["n"], op["i"], op.get("o"))
+                r.herald(op["n"], plain(op["i"]), plain(op.get("o")))
                 return self.check(cid, op, "herald")
             return []
         if k in PRIMS:
@@ -165,8 +165,8 @@ class WiringMonitor(Monitor):
         k = op["op"]
         nu = r.n_user
         if k == "bs":
-            m1 = op["m1"]
-            m2 = op.get("m2")
+            m1 = plain(op["m1"])
+            m2 = plain(op.get("m2"))
             if m2 is None:
                 m2 = m1 + 1
             refl = val(w, op.get("r", 0.5))
@@ -182,14 +182,14 @@ class WiringMonitor(Monitor):
             loss = val(w, op.get("loss", 0))
             if hasattr(phi, "get") or hasattr(loss, "get"):
                 raise ValueError("parameter")
-            r.apply_component(PhaseShifter(op["m"], phi).get_unitary(nu))
+            r.apply_component(PhaseShifter(plain(op["m"]), phi).get_unitary(nu))
             if loss > 0:
-                r.apply_component(Loss(op["m"], loss).get_unitary(nu + 1), 1)
+                r.apply_component(Loss(plain(op["m"]), loss).get_unitary(nu + 1), 1)
         elif k == "loss":
             l = val(w, op["l"])
             if hasattr(l, "get"):
                 raise ValueError("parameter")
-            r.apply_component(Loss(op["m"], l).get_unitary(nu + 1), 1)
+            r.apply_component(Loss(plain(op["m"]), l).get_unitary(nu + 1), 1)
         elif k == "mode_swaps":
             r.apply_component(ModeSwaps({a: b for a, b in op["swaps"]}).get_unitary(nu))
 
